@@ -19,6 +19,7 @@ import Complgen.Spec.Den
 import Complgen.Proofs.Order
 import Complgen.Proofs.LadderLayout
 import Complgen.Proofs.Statements
+import Complgen.Proofs.StatementsFull
 namespace Complgen.Props.C14
 open Complgen Complgen.Spec
 
@@ -94,5 +95,15 @@ theorem grammar_layout_irrelevant (g : Grammar) (hg : ∀ st ∈ g, Parse.StmtNF
     ∃ g₁ g₂, Parse.parse (Parse.ppGrammarL G₁ g) = .ok g₁ ∧ Parse.parse (Parse.ppGrammarL G₂ g) = .ok g₂ ∧
       g₁.map Stmt.eraseSpans = g₂.map Stmt.eraseSpans :=
   Parse.grammar_layout_irrelevant g hg G₁ G₂ adm₁ adm₂
+
+/-- **Layout does not change the grammar — the larger fragment** (`Proofs/StatementsFull.lean`): whole files
+whose expressions use escaped literals, descriptions, descriptions over groups and words by
+juxtaposition besides the operators; layout may additionally stand before a description. -/
+theorem grammar_layout_irrelevant_full (g : Grammar) (hg : ∀ st ∈ g, Parse.Full.StmtNF' st)
+    (G₁ G₂ : Parse.Full.GLayout') (adm₁ : G₁.Adm g) (adm₂ : G₂.Adm g) :
+    ∃ g₁ g₂, Parse.parse (Parse.Full.ppGrammarL' G₁ g) = .ok g₁ ∧
+      Parse.parse (Parse.Full.ppGrammarL' G₂ g) = .ok g₂ ∧
+      g₁.map Stmt.eraseSpans = g₂.map Stmt.eraseSpans :=
+  Parse.grammar_layout_irrelevant_full g hg G₁ G₂ adm₁ adm₂
 
 end Complgen.Props.C14
